@@ -92,6 +92,12 @@ func (s sym) packet() *types.Packet {
 		st.Mode, st.Linkname = uint32(os.ModeDir|os.ModeSymlink|0777), "/outside/d"
 	case s.Kind == "fifo":
 		st.Mode = uint32(os.ModeNamedPipe | 0666)
+	case strings.HasPrefix(s.Kind, "sockhl:"), strings.HasPrefix(s.Kind, "irrhl:"), strings.HasPrefix(s.Kind, "chrhl:"):
+		// entries that are neither directory, symlink, device nor fifo for the disk writer, yet not regular either,
+		// carrying a hard-link name
+		i := strings.IndexByte(s.Kind, ':')
+		st.Linkname = s.Kind[i+1:]
+		st.Mode = map[string]uint32{"sockhl": uint32(os.ModeSocket | 0644), "irrhl": uint32(os.ModeIrregular | 0644), "chrhl": uint32(os.ModeCharDevice | 0644)}[s.Kind[:i]]
 	case strings.HasPrefix(s.Kind, "dirmimic:"):
 		// a directory entry that copies every other field of the symlink the prior destinations hold at this path
 		st.Linkname = s.Kind[len("dirmimic:"):]
@@ -116,6 +122,9 @@ func c03Alphabet(tier string) []sym {
 			}
 			out = append(out, sym{T: "stat", Path: p, Kind: k})
 		}
+	}
+	for _, k := range []string{"sockhl:", "irrhl:", "chrhl:"} {
+		out = append(out, sym{T: "stat", Path: "b", Kind: k + relOutF}, sym{T: "stat", Path: "b", Kind: k + "/outside/f"}, sym{T: "stat", Path: "b", Kind: k + "a"})
 	}
 	out = append(out, sym{T: "stat", Path: "a", Kind: "dirmimic:/outside/d"}, sym{T: "stat", Path: "b", Kind: "dirmimic:" + relOutD}, sym{T: "stat", Path: "a", Kind: "dirmimic:b"})
 	// names of the shape the receiver itself uses for temporary entries
@@ -480,6 +489,23 @@ func judgeC03(root string, c c03Case) (string, string) {
 		}
 		if sy.T == "data" && sy.ID == 7 && rerr == nil {
 			return "unrequested-data-accepted", "the stream carries DATA for id 7, which was never announced or requested, but Receive returned nil"
+		}
+	}
+	// content for the id of an entry that is never requested (anything but a plain regular file) => failure
+	{
+		var kinds []string
+		for _, sy := range script {
+			if sy.T == "fin" || sy.T == "err" {
+				break
+			}
+			if sy.T == "stat" {
+				kinds = append(kinds, sy.Kind)
+			}
+			if sy.T == "data" && int(sy.ID) < len(kinds) && rerr == nil {
+				if k := kinds[sy.ID]; k != "file" && k != "filex" && k != "suid" {
+					return "unrequested-data-accepted", fmt.Sprintf("the stream carries DATA for id %d, announced as %q (never requested), but Receive returned nil", sy.ID, k)
+				}
+			}
 		}
 	}
 	// first offending STAT => failure, nothing at or after it applied
